@@ -4,6 +4,7 @@ package checks
 
 import (
 	"fmt"
+	"sort"
 	"strings"
 	"time"
 
@@ -86,6 +87,8 @@ func genC13(c *fw.Ctx) {
 		nodes := []*doc.Node{doc.Jsight()}
 		var trailing []*doc.Node
 		declared := map[string]string{} // prefix -> expected scalar value
+		declaredBy := map[string]int{}  // prefix -> the selection item whose Path declares it
+		usedBy := map[string]string{}   // prefix -> the user type the parameter's schema uses
 		usesValTypes := false
 		dupl := false
 		anyDecl := false
@@ -111,7 +114,20 @@ func genC13(c *fw.Ctx) {
 					case 4:
 						src, want = "@vstr", "@vstr"
 						usesValTypes = true
+					case 5: // or rules: a built-in type before / after a user type, as names and as objects
+						src, want = "12 // {or: [\"integer\", \"@vint\"]}", "12"
+						usesValTypes = true
+					case 6:
+						src, want = "12 // {or: [\"@vint\", \"string\"]}", "12"
+						usesValTypes = true
+					case 7:
+						src, want = "12 // {or: [{type: \"integer\"}, {type: \"@vstr\"}]}", "12"
+						usesValTypes = true
 					}
+					if ut := map[int]string{2: "@vint", 3: "@vflt", 4: "@vstr", 5: "@vint", 6: "@vint", 7: "@vstr"}[it.valForm]; ut != "" {
+						usedBy[p.prefix] = ut
+					}
+					declaredBy[p.prefix] = i
 					props = append(props, fmt.Sprintf("  \"%s\": %s", p.name, src))
 					if _, ok := declared[p.prefix]; ok {
 						dupl = true
@@ -132,6 +148,9 @@ func genC13(c *fw.Ctx) {
 					}
 				}
 				body := "{\n" + strings.Join(props, "\n") + "\n}"
+				// the same object as a user type: a parameter's schema in pathVariables is the schema
+				// the same property has there
+				trailing = append(trailing, n("TYPE", fmt.Sprintf("@probe%d", i)).WithBody(body))
 				if it.refDepth > 0 {
 					var tt []*doc.Node
 					for d := 1; d <= it.refDepth; d++ {
@@ -239,6 +258,53 @@ func genC13(c *fw.Ctx) {
 				c.Violate("path-variables", "C13:binding:"+bindClass(got, want), fmt.Sprintf("%s: interaction %s has pathVariables %v, reference binding %v", label, id, got, want), map[string]interface{}{"text": text})
 				return
 			}
+			// "each with the declared schema": the entry of every parameter equals the entry the same
+			// property has in the probe type written with the same object; the user types the
+			// parameters use are the user types of pathVariables
+			if pv != nil {
+				var wantUsed []string
+				for _, p := range pp {
+					j, ok := declaredBy[p.prefix]
+					if !ok {
+						continue
+					}
+					if u := usedBy[p.prefix]; u != "" {
+						wantUsed = append(wantUsed, u)
+					}
+					var mine, probe *jsonx.V
+					if ch := pv.Path("schema", "content", "children"); ch != nil {
+						for _, x := range ch.A {
+							if x.Get("key").Str() == p.name {
+								mine = x
+							}
+						}
+					}
+					if ch := cat.Path("userTypes", fmt.Sprintf("@probe%d", j), "schema", "content", "children"); ch != nil {
+						for _, x := range ch.A {
+							if x.Get("key").Str() == p.name {
+								probe = x
+							}
+						}
+					}
+					if mine != nil && probe != nil && mine.Canon() != probe.Canon() {
+						c.Violate("path-variables", "C13:schema-differs", fmt.Sprintf("%s: interaction %s, parameter %s has the schema %s, the same property of a user type has %s", label, id, p.name, clipS(mine.Canon(), 300), clipS(probe.Canon(), 300)), map[string]interface{}{"text": text})
+						return
+					}
+				}
+				var gotUsed []string
+				if u := pv.Path("schema", "usedUserTypes"); u != nil {
+					for _, x := range u.A {
+						gotUsed = append(gotUsed, x.S)
+					}
+				}
+				gu, wu := dedupStrings(gotUsed), dedupStrings(wantUsed)
+				sort.Strings(gu)
+				sort.Strings(wu)
+				if strings.Join(gu, ",") != strings.Join(wu, ",") {
+					c.Violate("path-variables", "C13:used-types", fmt.Sprintf("%s: interaction %s: pathVariables.schema.usedUserTypes = %v, the parameters use %v", label, id, gotUsed, wantUsed), map[string]interface{}{"text": text})
+					return
+				}
+			}
 		}
 		if anyDecl {
 			c.Sample("binding", 3, map[string]interface{}{"selection": label, "text": text})
@@ -273,7 +339,7 @@ func genC13(c *fw.Ctx) {
 							if refDepth > 0 && subset == 0 || refDepth == 0 && after {
 								continue
 							}
-							for valForm := 0; valForm <= 4; valForm++ {
+							for valForm := 0; valForm <= 7; valForm++ {
 								if valForm > 0 && (subset == 0 || len(sel) > 0) {
 									continue // the forms vary on the first path of a selection
 								}
@@ -381,6 +447,20 @@ func c13FaultDocs() []c13fv {
 		{"empty-object", mk("/a/{id}", "{}", "")},
 		{"declared-twice-url-and-method", "JSIGHT 0.3\nURL /a/{id}\n  Path\n    {\n      \"id\": 1\n    }\n  GET\n    Path\n      {\n        \"id\": 2\n      }\n    200 any\n"},
 		{"declared-twice-prefix-and-longer", "JSIGHT 0.3\nGET /a/{id}\n  Path\n    {\n      \"id\": 1\n    }\n  200 any\nGET /a/{id}/b\n  Path\n    {\n      \"id\": 2\n    }\n  200 any\n"},
+	}
+	// a type a path parameter cannot have (object, array, undefined), named by a rule of the
+	// parameter: in every rule form and at every position among the alternatives
+	extra := "TYPE @ob\n  {\"x\": 1}\nTYPE @ar\n  [1]\nTYPE @vi\n  1\n"
+	for _, x := range []string{"@ob", "@ar", "@nope"} {
+		for fi, form := range []string{
+			`{type: "%s"}`, `{or: ["integer", "%s"]}`, `{or: ["%s", "integer"]}`, `{or: [{type: "integer"}, {type: "%s"}]}`, `{or: [{type: "%s"}, {type: "integer"}]}`, `{or: ["@vi", "%s"]}`, `{or: ["integer", "string", "%s"]}`,
+		} {
+			ex := "1"
+			if fi == 0 {
+				ex = map[string]string{"@ob": "{\"x\": 1}", "@ar": "[1]", "@nope": "1"}[x]
+			}
+			faults = append(faults, fv{fmt.Sprintf("parameter-rule-names-%s-form%d", x[1:], fi), mk("/a/{id}", "{\n  \"id\": "+ex+" // "+fmt.Sprintf(form, x)+"\n}", extra)})
+		}
 	}
 	return faults
 }
